@@ -52,7 +52,7 @@ GRIDS = {'real': dict(M=4, L=5, I=12, J=6, impl='real'),
 
 # a third-order 3-stage low-storage scheme different from the built-in ones (Williamson case 7 style,
 # exact rationals) and a 3-stage IMEX tableau with zero entries (exercises the zero skipping)
-CUSTOM_LS = dict(alphas=[0.0, 0.25, 0.75, 1.0], betas=[0.0, -0.5, -1.25], gammas=[0.25, 1.0, 0.5])
+CUSTOM_LS = dict(alphas=[0.0, 0.25, 0.75, 1.0], betas=[0.0, -0.5, -1.25], gammas=[0.25, 0.75, 1.0])
 CUSTOM_IMEX = dict(a_ex=[[0.5], [0.0, 0.75]], a_im=[[0.25, 0.25], [0.0, 0.5, 0.25]],
                    b_ex=[0.25, 0.0, 0.75], b_im=[0.25, 0.0, 0.75])
 
@@ -76,6 +76,8 @@ def generate(ctx):
                  'dt': float(rng.integers(1, 9)) / 32, 'alpha': [0.5, 0.75, 1.0][rep % 3],
                  'k': 1 if rep == 0 else int(rng.integers(2, 4)),
                  'filt': [] if rep % 2 == 0 else (util.small_rationals(rng, (d,), 4, 8, 8)).tolist()}
+            if a['k'] > 1 and name not in ('backward_forward_euler', 'semi_implicit_leapfrog'):
+                a['a'] = [0.0] * d      # exact rationals: keep the nesting depth of squarings small
             ctx.count('toy:' + name)
             yield 'toy', a
         yield 'scalar', {'scheme': name, 'dt': float(rng.integers(1, 9)) / 32, 'alpha': 0.5,
@@ -379,12 +381,20 @@ def r_unit(ctx, a):
     req = _required_zero(g)
     st = _state(rng, kind, c, 0.01)
     exact00 = kind in ('dry', 'time', 'sw')
-    # explicit terms of an arbitrary dense input land in the pattern
+    # explicit terms of an arbitrary dense input land in the pattern.  Shallow water: the pressure term
+    # -laplacian(density_ratios @ potential) is linear in the modal input itself (no transform), so only the top
+    # wavenumber is cleared for arbitrary input and the full pattern needs an input inside the triangular mask.
     dense = _dense_like(rng, st, g, 'dense', scaled=(kind != 'sw'))
-    e = jax.jit(eq.explicit_terms)(dense)
+    ex = jax.jit(eq.explicit_terms)
+    e = ex(dense)
     ctx.oracle('explicit tendencies finite', dyn.tree_all_finite(e))
-    _check_pattern(ctx, 'explicit_terms of ANY input has exact zeros outside the truncation and at the top wavenumber', e, req)
-    ok = all(int(np.count_nonzero(x[..., req])) == 0 for n, x in _leaves(e) if x.ndim >= 2)
+    top = np.zeros_like(req); top[:, g.total_wavenumbers - 1:] = True
+    _check_pattern(ctx, 'explicit_terms of ANY input has exact zeros at the top wavenumber' if kind == 'sw' else
+                   'explicit_terms of ANY input has exact zeros outside the truncation and at the top wavenumber', e, top if kind == 'sw' else req)
+    inmask = _map_named(dense, lambda n, v: v * np.asarray(g.mask) if np.ndim(v) >= 2 else v)
+    e1 = ex(inmask)
+    _check_pattern(ctx, 'explicit_terms of any input inside the triangular mask (top wavenumber populated) lands in the pattern', e1, req)
+    ok = all(int(np.count_nonzero(x[..., req])) == 0 for n, x in _leaves(e1) if x.ndim >= 2)
     ctx.table_obligation('H_pre_mask: tendencies before the final clip vanish outside the triangular mask (observed through the clip)', ok)
     E = dict(_leaves(e))
     if exact00:
@@ -397,7 +407,7 @@ def r_unit(ctx, a):
     if kind != 'sw':
         ctx.oracle('explicit tendency of the uniform tracer slot is defined and in the pattern', True)
     # band-limited admissible input: the means of the tendencies vanish (moist: to rounding; hypothesis of the mean theorem)
-    e2 = jax.jit(eq.explicit_terms)(st); E2 = dict(_leaves(e2))
+    e2 = ex(st); E2 = dict(_leaves(e2))
     for f in ('vorticity', 'divergence'):
         sc = max(float(np.max(np.abs(E2[f]))), 1e-300)
         ctx.table_obligation(f'H_mean_tendency_zero[{kind}]: (0,0) of the {f} tendency vanishes on admissible states',
@@ -409,14 +419,14 @@ def r_unit(ctx, a):
                              bool(np.all(np.abs(tq) <= 1e-11 * sc)), {'max': float(np.max(np.abs(tq))), 'scale': sc})
     # implicit terms / inverse act per (m,l): a conforming input (with non-zero means) stays conforming
     conf = _dense_like(rng, st, g, 'conforming')
-    gi = jax.jit(eq.implicit_terms)(conf)
+    gi = eq.implicit_terms(conf)
     _check_pattern(ctx, 'implicit_terms keeps the zero pattern', gi, req)
     C0 = dict(_leaves(conf)); GI = dict(_leaves(gi))
     ctx.oracle('(0,0) coefficients of the implicit vorticity and divergence tendencies are exactly 0',
                bool(np.all(GI['vorticity'][..., 0, 0] == 0.0)) and bool(np.all(GI['divergence'][..., 0, 0] == 0.0)),
                {'div': GI['divergence'][..., 0, 0]})
     for eta in (0.01, -0.01, 0.1):
-        inv = jax.jit(lambda s: eq.implicit_inverse(s, eta))(conf)
+        inv = eq.implicit_inverse(conf, eta)
         _check_pattern(ctx, 'implicit_inverse keeps the zero pattern', inv, req)
         IV = dict(_leaves(inv))
         for f in ('vorticity', 'divergence'):
@@ -452,7 +462,7 @@ def r_time_unit(ctx, a):
     """filters vs scalar / non-modal leaves (shape rule), on plain trees"""
     m = dyn.mods(); jnp = m['jnp']; ti = m['ti']; filtering = m['filtering']
     rng = np.random.Generator(np.random.PCG64(a['seed']))
-    for gd in (GRIDS['real'], GRIDS['fast'], dict(M=1, L=1, I=4, J=2, impl='real')):
+    for gd in (GRIDS['real'], GRIDS['fast'], dict(M=2, L=2, I=6, J=4, impl='real')):
         g = dyn.grid(**gd)
         x = {'u': jnp.asarray(dyn.modal_field(rng, g, (2,), 3) + 1.0 * np.asarray(g.mask)), 'sim_time': jnp.asarray(1.375), 't_py': 2.5}
         fns = {'exponential_filter': filtering.exponential_filter(g, 16, 2), 'horizontal_diffusion_filter': filtering.horizontal_diffusion_filter(g, 0.5, 1),
